@@ -90,6 +90,13 @@ def _sink_flags(compiled):
     return SINK_FLAGS.get(compiled, 0)
 
 
+def _sink_def(p):
+    """SINKS[p], or for p >= 100 the p-th of a family of generated prefixes (apps with hundreds of sinks)."""
+    if p < 100:
+        return SINKS[p]
+    return ('/m/k%d' % p, False)
+
+
 STATICS = ['/', '/a', '/s', '/a/1', '/s/']
 
 PATHS = ['/', '/a', '/a/', '/a/1', '/a/12', '/a/1/f.txt', '/a/x', '/a/x/f.txt', '/s', '/s/f.txt', '/s/d/f.txt',
@@ -100,7 +107,9 @@ PATHS = ['/', '/a', '/a/', '/a/1', '/a/12', '/a/1/f.txt', '/a/x', '/a/x/f.txt', 
          # longer than 512 characters as a whole, but the part below the static prefix '/s/' is within the limit
          '/s/' + 'x' * 510,
          # file names beyond any length a static route serves (it still CLAIMS the path: nothing of lower priority may run)
-         '/s/' + 'x' * 513, '/a/' + 'y' * 700, '/s/d/' + 'z' * 70000]
+         '/s/' + 'x' * 513, '/a/' + 'y' * 700, '/s/d/' + 'z' * 70000,
+         # below the generated sink family '/m/k<p>' (p = 100..)
+         '/m/k100', '/m/k100/x', '/m/k250/y', '/m/k399', '/m/k1000', '/m/k99', '/m/k3990']
 
 FALLBACK = 'fallback.txt'
 
@@ -155,7 +164,7 @@ class Model(object):
                 self.router.add(TEMPLATES[op['t']], i)
                 self.routes[i] = (frozenset(impl), op['suffix'])
             elif op['k'] == 'sink':
-                self.sinks.append((i, re.compile(SINKS[op['p']][0], _sink_flags(SINKS[op['p']][1]))))
+                self.sinks.append((i, re.compile(_sink_def(op['p'])[0], _sink_flags(_sink_def(op['p'])[1]))))
             else:
                 self.statics.append((i, len(self.statics), _norm_prefix(STATICS[op['p']]), op['fb']))
 
@@ -280,7 +289,7 @@ def build_app(case, asgi, dirs, model, after_op=None):
                     % ('asgi' if asgi else 'wsgi', TEMPLATES[op['t']], op['m'], op['mx'], op['suffix'],
                        'raised' if raised else 'not raised', 'raised' if i in model.rejected else 'not raised'))
         elif op['k'] == 'sink':
-            text, compiled = SINKS[op['p']]
+            text, compiled = _sink_def(op['p'])
             app.add_sink(_sink(asgi, ['sink', i]), re.compile(text, _sink_flags(compiled)) if compiled else text)
         else:
             kw = {'fallback_filename': FALLBACK} if op['fb'] else {}
@@ -438,7 +447,7 @@ def describe(case):
             out.append('#%d add_route(%r, on_*=%r, on_*_x=%r, suffix=%r)'
                        % (i, TEMPLATES[op['t']], op['m'], op['mx'], op['suffix']))
         elif op['k'] == 'sink':
-            text, compiled = SINKS[op['p']]
+            text, compiled = _sink_def(op['p'])
             out.append('#%d add_sink(%s)' % (i, 're.compile(%r)' % text if compiled else repr(text)))
         else:
             out.append('#%d add_static_route(%r%s)' % (i, STATICS[op['p']], ', fallback' if op['fb'] else ''))
@@ -628,6 +637,13 @@ class Subsets(_Base):
                                                   '/s/d/' + 'z' * 70000) for m in ('GET', 'POST')]
             yield {'sbs': sbs, 'ops': [{'k': 'sink', 'p': 0}, {'k': 'sink', 'p': 7}, {'k': 'static', 'p': 2, 'fb': False}], 'reqs': more}
             yield {'sbs': sbs, 'ops': [{'k': 'static', 'p': 4, 'fb': True}, {'k': 'sink', 'p': 3}, {'k': 'sink', 'p': 7}], 'reqs': more}
+            # apps with hundreds of sinks (most recently added first; '/m/k100' is also a prefix of '/m/k1000')
+            many = [[PATHS.index(p), m] for p in ('/m/k100', '/m/k100/x', '/m/k250/y', '/m/k399', '/m/k1000', '/m/k99', '/m/k3990', '/zz')
+                    for m in ('GET', 'DELETE')]
+            for n in (70, 300):
+                family = [{'k': 'sink', 'p': 100 + j} for j in range(n)]
+                yield {'sbs': sbs, 'ops': [{'k': 'sink', 'p': 0}] + family, 'reqs': many}
+                yield {'sbs': sbs, 'ops': family[::-1] + [{'k': 'static', 'p': 2, 'fb': False}] + family[:3], 'reqs': many}
             # an older catch-all sink / static route behind the static route that claims the (over-long) path
             yield {'sbs': sbs, 'ops': [{'k': 'sink', 'p': 0}, {'k': 'sink', 'p': 3}, {'k': 'static', 'p': 2, 'fb': False}, {'k': 'static', 'p': 1, 'fb': False}], 'reqs': more}
             yield {'sbs': sbs, 'ops': [{'k': 'static', 'p': 0, 'fb': True}, {'k': 'sink', 'p': 1}, {'k': 'static', 'p': 4, 'fb': False}], 'reqs': more}
